@@ -27,7 +27,7 @@ pub fn check(cx: &Cx, rep: &mut Report) {
         for e in ix.ev {
             if let K::Effect { actor, what, ok: true, .. } = &e.k {
                 if *actor == af.task && *what == "ctx_restart" {
-                    reqs.push((e.stamp, e.stamp));
+                    reqs.push((ix.effect_begin(e.stamp), e.stamp));
                 }
             }
         }
